@@ -115,17 +115,18 @@ def gen_tri(r, quick):
             lm = [r.below(n) for _ in range(nl)]                    # with repetition: "last position wins"
         else:
             lm = rand_subset(r, n, nl)
-        dist = [[r.below(8) for _ in range(n)] for _ in range(n)]   # arbitrary (asymmetric) callback values
+        ua = r.choice([-20, -10, -3, 0, 0, 5, 15])                   # unit of the callback values: 2^ua
+        dist = scaled([[r.below(8) for _ in range(n)] for _ in range(n)], ua)   # arbitrary (asymmetric) callback values
         V = [[dy(r, -3, 3, 4) for _ in range(d)] for _ in range(nl)]
         lam = []
+        ub = r.choice([-60, -40, -20, 0, 0, 20, 40])                 # eigenvalues of every magnitude (relative tolerance!)
         for i in range(d):
             e = r.range(-2, 3)
-            v = "%d" % (2 ** e) if e >= 0 else "1/%d" % (2 ** -e)
-            lam.append(("-" if r.chance(1, 6) else "") + v)
+            lam.append(("-" if r.chance(1, 6) else "") + "1:%d" % (e + ub))
         div0 = r.chance(1, 8)
         if div0:
             lam[r.below(d)] = "0"                                   # vanishing eigenvalue: pseudo-inverse column
-        mu = [dy(r, 0, 20, 2) for _ in range(nl)]
+        mu = ["%d:%d" % (r.range(0, 40), 2 * ua - 1) for _ in range(nl)]
         cases.append(("tri n=%d d=%d lm=%s dist=%s V=%s lam=%s mu=%s" % (
             n, d, show_idx(lm), show_mat(dist), show_mat(V), ",".join(lam), ",".join(mu)), div0))
     return cases
@@ -142,6 +143,16 @@ def int_points(r, n, D, rank, span):
             pts.append([p0[j] + sum(c[k] * basis[k][j] for k in range(rank)) for j in range(D)])
         if len(set(map(tuple, pts))) == n or r.chance(1, 10):
             return pts
+
+
+UNITS = [-40, -30, -20, -10, -3, 0, 0, 0, 5, 10, 20, 30]
+
+
+def scaled(rows, e):
+    """multiply every entry by the exact unit 2^e (text `k:e`, read exactly by harness and driver)"""
+    if e == 0:
+        return rows
+    return [[("%d:%d" % (x, e) if x != 0 else "0") for x in r] for r in rows]
 
 
 def sqdist(p, q):
@@ -577,6 +588,7 @@ def judge_lisomap(run, cases):
             ctx.sample({"case": c.line, "impl": c.io[:300], "verdict": v})
     fimpl = run.impl(flines) if flines else []
     glines, gmeta = [], []
+    run.ratio_one_total = getattr(run, "ratio_one_total", 0) + len(follow)
     for c, fl, fo in zip(follow, flines, fimpl):
         f = fields(fo)
         if fo.startswith("abort:") or "Y" not in f or "dblmax" in f.get("G", ""):
@@ -590,6 +602,8 @@ def judge_lisomap(run, cases):
     for (c, fl, fo, f), gv in zip(gmeta, gver):
         g = fields(gv).get("gram", "?")
         ctx.stat("gram:lisomap-ratio1:" + g.split(":")[0])
+        if g.startswith("ok"):
+            run.ratio_one_ok = getattr(run, "ratio_one_ok", 0) + 1
         if g == "nonfinite:B" or g == "nonfinite:AB":
             ctx.stat("gram:isomap-reference-nonfinite(skipped)")
             continue
@@ -631,7 +645,8 @@ def lmds_cases(r, quick):
             for j in range(i + 1, n):
                 dist[i][j] = r.range(1, 7)
                 dist[j][i] = dist[i][j] if sym else r.range(1, 7)
-        cases.append(LmdsCase(n, d, "%d/%d" % (nl, n), dist=dist, seed=r.below(2 ** 31), exact=True, label="exact-int"))
+        cases.append(LmdsCase(n, d, "%d/%d" % (nl, n), dist=scaled(dist, r.choice(UNITS)), seed=r.below(2 ** 31), exact=True,
+                              label="exact-int"))
     # (2) Euclidean integer points: rank == d (hypothesis of the distance oracle), rank < d, rank > d
     for _ in range(120 if quick else 4500):
         d = r.range(1, 5)
@@ -644,7 +659,7 @@ def lmds_cases(r, quick):
         nl = r.range(lo, n) if r.chance(3, 4) else n
         if nl < d:           # d > n_l has its own family
             nl = min(n, d)
-        cases.append(LmdsCase(n, d, ratio_for(nl, n), pts=pts, seed=r.below(2 ** 31),
+        cases.append(LmdsCase(n, d, ratio_for(nl, n), pts=scaled(pts, r.choice(UNITS)), seed=r.below(2 ** 31),
                               label="euclid-rank%s" % ("=d" if rank == d else "<d" if rank < d else ">d")))
     # (3) ratio = 1
     for _ in range(25 if quick else 900):
@@ -652,7 +667,7 @@ def lmds_cases(r, quick):
         n = r.range(d + 2, 12)
         rank = r.range(d, d + 2)
         pts = int_points(r, n, rank + r.below(2), rank, 3)
-        cases.append(LmdsCase(n, d, "1", pts=pts, seed=r.below(2 ** 31), label="ratio-one"))
+        cases.append(LmdsCase(n, d, "1", pts=scaled(pts, r.choice(UNITS)), seed=r.below(2 ** 31), label="ratio-one"))
     # (4) d > n_landmarks (validated: d < N and ratio >= 3/N)
     for _ in range(4 if quick else 20):
         n = r.range(6, 12)
@@ -666,7 +681,8 @@ def lmds_cases(r, quick):
         n = r.range(d + 3, 12)
         pts = int_points(r, n, d + 1, d, 3)
         nl = r.range(max(3, d + 1), n)
-        cases.append(LmdsCase(n, d, ratio_for(nl, n), pts=pts, seed=r.below(2 ** 31), eig="randomized", label="randomized"))
+        cases.append(LmdsCase(n, d, ratio_for(nl, n), pts=scaled(pts, r.choice(UNITS)), seed=r.below(2 ** 31), eig="randomized",
+                              label="randomized"))
     return cases
 
 
@@ -677,7 +693,7 @@ def lmds_exhaustive(r, quick):
            [(5, 2, "ordered"), (5, 1, "ordered"), (5, 3, "ordered"), (6, 2, "ordered"), (6, 3, "sets"), (6, 1, "sets"),
             (7, 2, "ordered34"), (7, 3, "sets"), (7, 1, "sets"), (7, 4, "sets"), (7, 2, "sets")]
     for n, d, mode in plan:
-        pts = int_points(r, n, d + r.below(2), d, 3)
+        pts = scaled(int_points(r, n, d + r.below(2), d, 3), r.choice(UNITS))
         for nl in range(3, n + 1):
             if mode == "ordered" or (mode == "ordered34" and nl <= 4):
                 subs = itertools.permutations(range(n), nl)
@@ -696,26 +712,28 @@ def lisomap_cases(r, quick):
         D = r.range(1, 2)
         pts = int_points(r, n, D, D, 2)
         dist = [[l1(p, q) for q in pts] for p in pts]
-        d = r.range(1, min(3, nl - 1))
+        d = r.range(1, D) if nl == n else r.range(1, min(3, nl - 1))      # ratio = 1 is compared with Isomap: d <= D
         k = r.range(3, n - 1)
-        cases.append(LisoCase(n, d, "%d/%d" % (nl, n), k, dist=dist, seed=r.below(2 ** 31), exact=True,
+        cases.append(LisoCase(n, d, "%d/%d" % (nl, n), k, dist=scaled(dist, r.choice(UNITS)), seed=r.below(2 ** 31), exact=True,
                               eig=("dense" if r.chance(3, 4) else "randomized"), label="exact-L1"))
     # Euclidean / L1 metrics, approx mode, including ratio = 1 (compared with Isomap)
     for _ in range(60 if quick else 2000):
         n = r.range(6, 14 if quick else 24)
         D = r.range(1, 3)
         pts = int_points(r, n, D, D, 3)
-        d = r.range(1, 3)
         one = r.chance(1, 2)
+        # ratio = 1 is compared with Isomap: d <= D keeps the d-th eigenvalue away from the structural zeros
+        d = r.range(1, D) if one else r.range(1, 3)
         nl = n if one else r.range(max(3, d + 1), n)
-        full = r.chance(1, 2)                       # complete neighbourhood graph: geodesic = the metric itself (symmetric)
+        full = r.chance(3, 4) if one else r.chance(1, 2)   # complete neighbourhood graph: geodesic = the metric itself (symmetric)
         k = n - 1 if full else r.range(3, n - 1)
         label = ("ratio-one" if one else "sub") + ("-complete" if full else "-knn")
-        if r.chance(1, 3):
+        u = r.choice(UNITS)
+        if r.chance(1, 4 if one else 3):
             dist = [[l1(p, q) for q in pts] for p in pts]      # a metric that is not Euclidean: indefinite centred matrix
-            cases.append(LisoCase(n, d, ratio_for(nl, n), k, dist=dist, seed=r.below(2 ** 31), label=label + "-L1"))
+            cases.append(LisoCase(n, d, ratio_for(nl, n), k, dist=scaled(dist, u), seed=r.below(2 ** 31), label=label + "-L1"))
         else:
-            cases.append(LisoCase(n, d, ratio_for(nl, n), k, pts=pts, seed=r.below(2 ** 31), label=label + "-euclid"))
+            cases.append(LisoCase(n, d, ratio_for(nl, n), k, pts=scaled(pts, u), seed=r.below(2 ** 31), label=label + "-euclid"))
     for _ in range(3 if quick else 12):
         n = r.range(7, 12)
         nl = 3
@@ -767,7 +785,7 @@ def sweep(run, quick):
 
 
 def full_api(run, cases):
-    """thorough: the same cases through tapkee::with(..).withDistance(..).embedRange(..) (all 20 methods instantiated,
+    """both tiers (a sample in quick, 250 in thorough): the same cases through tapkee::with(..).withDistance(..).embedRange(..) (all 20 methods instantiated,
     embed.hpp front end) must print exactly what the light harness prints"""
     ctx = run.ctx
     binary, log = build_full(ctx)
@@ -830,7 +848,7 @@ def corpus_lines():
 
 def case_from_line(line):
     f = fields(line)
-    pts = [[int(x) for x in r.split(",")] for r in f["pts"].split(";")] if "pts" in f else None
+    pts = [[x for x in r.split(",")] for r in f["pts"].split(";")] if "pts" in f else None
     dist = [[x for x in r.split(",")] for r in f["dist"].split(";")] if "dist" in f else None
     lmwant = [int(x) for x in f["lmwant"].split(",")] if "lmwant" in f else None
     seed = int(f["seed"]) if "seed" in f else None
@@ -910,6 +928,12 @@ def correspond(ctx):
     for i in range(0, len(lis), 200):
         judge_lisomap(run, lis[i:i + 200])
     ctx.log("lisomap done")
+    tot, okc = getattr(run, "ratio_one_total", 0), getattr(run, "ratio_one_ok", 0)
+    ctx.extra["lisomap_ratio_one_judged"] = {"comparisons": tot, "judged_equal_to_isomap": okc}
+    if tot >= 20 and 2 * okc < tot:
+        ctx.broken("coverage:lisomap-ratio-one", "coverage obligation: at least half of the ratio-one Landmark Isomap comparisons are judged",
+                   "only %d of %d ratio-one Landmark Isomap cases were judged equal to Isomap (the rest skipped as degenerate or "
+                   "attributed to the open findings): the clause is not exercised enough" % (okc, tot))
     # the real public chain: a few cases of every family in quick, 250 in thorough
     if quick:
         by_label = {}
